@@ -8,6 +8,7 @@
 #define VERIF_IO_EINTR   (-1)    /* return -1, errno = EINTR, nothing transferred    */
 #define VERIF_IO_EAGAIN  (-2)    /* return -1, errno = EAGAIN                        */
 #define VERIF_IO_ERROR   (-3)    /* return -1, errno = EIO                           */
+#define VERIF_IO_ERROR2  (-4)    /* return -1, errno = ENOBUFS (an error with no arm of its own) */
 /* k > 0: short transfer of at most k bytes */
 extern unsigned char verif_payload[VERIF_PAYLOAD_MAX];
 extern int verif_payload_len, verif_payload_pos;
